@@ -47,7 +47,8 @@ def run_real(name, text, scratch):
     t0 = time.time()
     p = subprocess.run([sys.executable, '-W', 'ignore', '-c',
                         'import sys\nfrom exactly_lib.cli_default import default_main_program_setup as d\nsys.exit(d.main())',
-                        't.case'], cwd=w.home, env=env, stdout=subprocess.PIPE, stderr=subprocess.PIPE, timeout=60)
+                        't.case'], cwd=w.home, env=env, stdout=subprocess.PIPE, stderr=subprocess.PIPE, timeout=60,
+                       input=b'text waiting on the stdin of the Exactly process\n')
     wall = time.time() - t0
     recs = {}
     for k in ('out1', 'out2', 'out3'):
